@@ -247,6 +247,8 @@ cfb_case!(cfb_dec_b4_w3_n4_b2b, 40, Decryptor, dec, false, U4, 4, U3, 16, B2B);
 cfb_case!(cfb_dec_b2_w1_n3_single, 40, Decryptor, dec, false, U2, 2, U1, 6, SINGLE);
 cfb_case!(cfb_dec_b2_w3_l9_oneshot, 40, Decryptor, dec, false, U2, 2, U3, 9, ONESHOT); // group of 3 + 1 + tail byte
 cfb_case!(cfb_dec_b4_w2_l11_oneshot_b2b, 40, Decryptor, dec, false, U4, 4, U2, 11, ONESHOT_B2B);
+cfb_case!(cfb_dec_b2_w2_l6_oneshot_b2b, 40, Decryptor, dec, false, U2, 2, U2, 6, ONESHOT_B2B);
+cfb_case!(cfb_enc_b2_w1_l4_oneshot_b2b, 40, Encryptor, enc, true, U2, 2, U1, 4, ONESHOT_B2B);
 cfb_symlen_case!(cfb_enc_b2_w1_symlen7, 40, Encryptor, enc, true, U2, 2, U1, 7);
 cfb_symlen_case!(cfb_dec_b2_w2_symlen7, 40, Decryptor, dec, false, U2, 2, U2, 7);
 cfb8_case!(cfb8_enc_b3_l5_oneshot, 40, Encryptor, enc, true, U3, 3, U2, 5, ONESHOT);
